@@ -314,9 +314,19 @@ class TransformDMA(RewritePattern):
         remaining_strides: dict[tuple[int, int], RemainingStride] = {}
 
         # construct the dict. we only need the strides not yet present in the lcb
+        # (the strides of the lcb are identified by dimension and depth: another dimension can have an equal stride)
+        lcb_keys: set[tuple[int, int]] = set()
+        for stride in lcb:
+            for key in bound_ops.keys():
+                if (
+                    key not in lcb_keys
+                    and tsl_source.data.get_stride(*key) == stride
+                    and tsl_dest.data.get_stride(*key) == stride
+                ):
+                    lcb_keys.add(key)
+                    break
         for key in bound_ops.keys():
-            stride = tsl_source.data.get_stride(*key)
-            if stride not in lcb:
+            if key not in lcb_keys:
                 remaining_strides[key] = RemainingStride(
                     stride_src=tsl_source.data.get_stride(*key),
                     stride_dst=tsl_dest.data.get_stride(*key),
